@@ -813,7 +813,36 @@ class ExprMixin:
         raise Unsupported("set comprehension")
 
     def ex_DictComp(self, e, fr):
-        raise Unsupported("dict comprehension")
+        """{k: v for ...}: supported when every generator has a known length, the conditions are decided and the keys are
+        constant strings (e.g. a lookup table derived from another literal table); later keys overwrite earlier ones."""
+        from .ex import Frame
+        pairs = []
+
+        def rec(i, sub):
+            if i == len(e.generators):
+                kv = concrete_of(self.eval(e.key, sub))
+                if kv is NOCONST or not isinstance(kv, str):
+                    raise Unsupported("dict comprehension with non-constant keys")
+                pairs.append((kv, self.eval(e.value, sub)))
+                return
+            g = e.generators[i]
+            items = self.concrete_items(self.eval(g.iter, sub))
+            if items is None:
+                raise Unsupported("dict comprehension over a symbolic sequence")
+            for x in items:
+                self.assign_target(g.target, x, sub)
+                oks = [simp(truthy(self.eval(c, sub))) for c in g.ifs]
+                if any(not (z3.is_true(o) or z3.is_false(o)) for o in oks):
+                    raise Unsupported("dict comprehension with a symbolic condition")
+                if all(z3.is_true(o) for o in oks):
+                    rec(i + 1, sub)
+        rec(0, Frame(fr.module, fr.func, parent=fr, is_spec=fr.is_spec))
+        fields = {}
+        for k, v in pairs:
+            fields.pop(k, None)
+            fields[k] = v
+        ty = Rec("dict", as_dict=True, **{k: v.ty for k, v in fields.items()})
+        return VRec(ty, fields)
 
     def comprehension(self, e, fr, kind):
         """[elt for x in it if c...] -> list. Known-length iterables are unrolled; a z3 sequence becomes a
